@@ -10,7 +10,9 @@ use std::panic::{catch_unwind, AssertUnwindSafe};
 use std::sync::{Arc, Mutex};
 use vmodel::gen::Cpu;
 
-pub const MAX_STEPS: usize = 200_000;
+/// Liveness bound per execution, in scheduling decisions. The largest legitimate execution (a random
+/// tournament of order 600, one lock per arc, two calls) needs about 0.8 million.
+pub const MAX_STEPS: usize = 4_000_000;
 
 /// A configuration: what `available_parallelism()` answers, which scheduler
 /// decides the interleaving, and (in replay files) the recorded decisions.
